@@ -71,7 +71,7 @@ class InjectedDelay(DelayModel):
         self.calls = []
 
     def generate_delay(self, task_runtime, n=100):
-        self.calls.append(task_runtime)
+        self.calls.append((task_runtime, task_runtime + self.extra))
         return task_runtime + self.extra
 
 
